@@ -97,6 +97,9 @@ type xwHints struct {
 type xwScn struct {
 	Mode   string    `json:"mode"` // "fn" | "pt"
 	Fin    bool      `json:"fin"`  // XR already carries the composite finalizer
+	// the function composer's field manager has never applied this XR's references (a
+	// first apply by a new manager bumps the resourceVersion even when no value changes)
+	Fresh  bool      `json:"fresh,omitempty"`
 	Refs   []xwRef   `json:"refs"`
 	Objs   []xwObj   `json:"objs"`
 	Rounds []xwRound `json:"rounds"`
@@ -162,6 +165,14 @@ func xwNewWorld(s xwScn) *xwWorld {
 	}
 	xr.SetResourceReferences(refs)
 	st.Seed(xr)
+	if s.Mode == "fn" && !s.Fresh {
+		rl := []any{}
+		for _, r := range refs {
+			rl = append(rl, map[string]any{"apiVersion": r.APIVersion, "kind": r.Kind, "name": r.Name})
+		}
+		st.SeedApplied(xwXRGVK.GroupKind(), "", xwXRName, composite.FieldOwnerXR,
+			map[string]any{"metadata": map[string]any{"name": xwXRName}, "spec": map[string]any{"resourceRefs": rl}})
+	}
 	w.XRUID = string(st.Peek(xwXRGVK.GroupKind(), "", xwXRName).GetUID())
 	for _, o := range s.Objs {
 		u := &unstructured.Unstructured{}
